@@ -21,8 +21,14 @@
 using namespace vfh;
 using namespace wallet;
 
+// Verification hook of the BITCOIN_VERIF build (src/wallet/coinselection.cpp): the attempt bound of SelectCoinsBnB and CoinGrinder
+// (TOTAL_TRIES, 100000 in a normal build) is a variable, so that the bound can be made to hit at every position of a small search.
+namespace wallet { extern size_t g_verif_total_tries; }
+static constexpr size_t DEFAULT_TRIES = 100000;
+
 static uint64_t g_seed = 1;
 static int g_reps = 3;
+static bool g_bounds = true;    // run the searches with every small attempt bound as well
 static bool g_strict = false;   // replay mode: the known clone-skip pattern is reported as a mismatch as well
 static int g_known_lines = 0;
 
@@ -106,7 +112,16 @@ static std::string CheckRow(const UniValue& row)
     if (fs.size() > 1) R().Count("rows_choice_" + al);
     for (size_t i = 0; i < fs.size(); ++i) if (!fs[i][7].get_bool()) { R().Count("rows_with_nonoptimal_admitted_" + al); break; }
 
-    for (int rep = 0; rep < g_reps; ++rep) {
+    // The two searches are additionally run with every attempt bound 1 .. 2^(n+1) + 1 (beyond the size of the whole search tree): whatever
+    // the position at which the bound cuts the search, the result must be admitted, and a result that claims a completed search optimal.
+    const bool search = al == "bnb" || al == "cg";
+    const int bounded_runs = search && g_bounds ? (1 << (n + 1)) + 1 : 0;
+    bool known_row = false;
+    struct Restore { ~Restore() { wallet::g_verif_total_tries = DEFAULT_TRIES; } } restore;
+    for (int run = 0; run < g_reps + bounded_runs; ++run) {
+        const size_t bound = run < g_reps ? DEFAULT_TRIES : size_t(run - g_reps + 1);
+        const int rep = run < g_reps ? run : (run - g_reps) % g_reps;
+        wallet::g_verif_total_tries = bound;
         FastRandomContext rng(SeedFor(g_seed, rowh, rep));
         // the offered vector in a seeded order (the algorithms sort / shuffle it themselves; ties are broken by input order)
         std::vector<OutputGroup> offered(pool.groups);
@@ -117,7 +132,25 @@ static std::string CheckRow(const UniValue& row)
                                           al == "srd" ? SelectCoinsSRD(offered, target, cf, rng, maxw) :
                                                         KnapsackSolver(offered, target, ct, rng, maxw)};
         R().Count("calls_" + al);
-        const std::string tag = strprintf(" [%s rep %d]", al, rep);
+        // The specification's model of the search as coded (row["run"]: best selection after each attempt of the unbounded search): with bound T
+        // the real search must stop after min(T, F) attempts, report completion iff T > F, and hold the best of that attempt. A difference
+        // is a *deviation* (the property does not fix attempt counts or intermediate results); the verdicts below stay relation-based.
+        const bool model = search && row.exists("run") && row["det"].get_bool();
+        const UniValue* snap = nullptr;
+        size_t exp_tries = 0; bool exp_completed = false;
+        if (model) {
+            const size_t F = row["run"].size();
+            exp_tries = std::min(bound, F); exp_completed = bound > F;
+            if (exp_tries > 0) snap = &row["run"][exp_tries - 1];
+            const bool exp_fail = !snap || (I((*snap)[0]) == 0 && I((*snap)[1]) == 0);
+            R().Count("as_coded_compared_" + al);
+            if (exp_fail != !res) R().Deviation(row["p"], strprintf("%s with attempt bound %d: the model of the search as coded %s, the implementation %s", al, bound, exp_fail ? "finds nothing" : "has a selection", res ? "returns one" : "fails"), UniValue((uint64_t)bound));
+        }
+        const std::string tag = bound == DEFAULT_TRIES ? strprintf(" [%s rep %d]", al, rep) : strprintf(" [%s rep %d, attempt bound %d]", al, rep, bound);
+        if (bound != DEFAULT_TRIES) {
+            R().Count("bounded_calls_" + al);
+            if (!res) { R().Count("bounded_fail_" + al); continue; }      // cut short before anything was found: failure as coded
+        }
         if (!res) {
             if (fs.size() == 0) { R().Count("fail_none_feasible_" + al); continue; }
             R().Count("fail_but_feasible_" + al);
@@ -157,6 +190,17 @@ static std::string CheckRow(const UniValue& row)
         r.RecalculateWaste(mvc, coc, cf);
         if (r.GetWaste() != I(x[5])) return strprintf("GetWaste() = %d, the specification computes %d for the selected groups", r.GetWaste(), I(x[5])) + tag;
         R().Count("success_" + al);
+        if (model && snap) {
+            const CAmount amount = B(row["sf"]) ? r.GetSelectedValue() : r.GetSelectedEffectiveValue();
+            if (r.GetAlgoCompleted() != exp_completed || r.GetSelectionsEvaluated() != exp_tries || r.GetWeight() != I((*snap)[0]) || amount != I((*snap)[1])) {
+                R().Deviation(row["p"], strprintf("%s with attempt bound %d: completed=%d after %d attempts with weight %d amount %d; the model of the search as coded: completed=%d after %d attempts, weight %d amount %d",
+                                                  al, bound, (int)r.GetAlgoCompleted(), r.GetSelectionsEvaluated(), r.GetWeight(), amount, (int)exp_completed, exp_tries, I((*snap)[0]), I((*snap)[1])), UniValue((uint64_t)bound));
+            }
+        }
+        if (bound != DEFAULT_TRIES) {
+            if (r.GetSelectionsEvaluated() > bound) return strprintf("%d selections evaluated with an attempt bound of %d", r.GetSelectionsEvaluated(), bound) + tag;
+            R().Count(std::string(r.GetAlgoCompleted() ? "bounded_completed_" : "bounded_cut_short_with_result_") + al);
+        }
         if (al == "bnb" || al == "cg") {
             if (r.GetAlgoCompleted()) {
                 R().Count("completed_" + al);
@@ -168,9 +212,12 @@ static std::string CheckRow(const UniValue& row)
                     if (!cloneskip || g_strict) return why;
                     // Classified pattern: counted and handed to the driver separately (it decides known finding / violation), so
                     // that thousands of instances cannot crowd other mismatches out of the report.
-                    R().Count("known_bnb_cloneskip");
-                    if (g_known_lines++ < 5) R().Info(Obj({{"kind", "known_pattern"}, {"test", (uint64_t)R().cur_test}, {"why", why}, {"row", row}}));
-                    break;   // one instance per row
+                    if (!known_row) {   // one instance per row
+                        known_row = true;
+                        R().Count("known_bnb_cloneskip");
+                        if (g_known_lines++ < 5) R().Info(Obj({{"kind", "known_pattern"}, {"test", (uint64_t)R().cur_test}, {"why", why}, {"row", row}}));
+                    }
+                    continue;
                 }
             } else R().Count("not_completed_" + al);
         }
@@ -184,6 +231,7 @@ int main(int argc, char** argv)
     if (argc > 3) g_seed = std::strtoull(argv[3], nullptr, 10);
     if (argc > 4) g_reps = std::atoi(argv[4]);
     if (argc > 5) g_strict = std::string(argv[5]) == "strict";
+    if (argc > 6) g_bounds = std::string(argv[6]) != "nobounds";
     if (std::string(argv[1]) == "table") return TableMain(argv[2], CheckRow);
     return 2;
 }
